@@ -16,7 +16,7 @@ CHECKS = {
    "Closed-state RSTs with the literal SEQ=0 are lost in both runs (their effect legitimately depends on ISNs).",
    "deterministic simulation: differential replay of one seeded schedule under shifted ISNs"),
  "C17": ("E1 tcbsim (Byzantine peer)", "exploration", "6 C17",
-   "Forged segments (all 64 flag combinations, seq/ack around window edges, shrinking windows, payloads) injected between legitimate events of seeded schedules; oracles: no Tcb call unwinds, no data beyond any advertised right edge, provably unacceptable segments have no immediate effect.",
+   "Forged segments (all 64 flag combinations, seq/ack around window edges, shrinking windows, payloads) injected between legitimate events of seeded schedules; oracles: no Tcb call unwinds, no data beyond any advertised right edge, SND.WND/WL1/WL2 follow RFC 9293 3.10.7.4 for every segment processed on its own, provably unacceptable segments have no immediate effect.",
    "Above-window segments that the stack retains in its reordering queue are treated as delayed arrivals (no assertion on their later effect).",
    "deterministic simulation: seeded fault injection of forged segments into simulated connections"),
  "C11": ("E3 fragsim", "exploration", "6 C11",
@@ -36,7 +36,7 @@ CHECKS = {
    "Timing is checked on tokio's paused clock; the latency/throughput random draws come from the simulator.",
    "deterministic simulation: seeded configurations and task orders on virtual time with exact timing oracle"),
  "C06": ("E2 netsim", "fault_enumeration", "6 C06",
-   "Real Arp/Ipv4/Pci with generated claims, subnets and gateways and groups of concurrent resolvers; loss patterns over ARP frames 'first k requests lost then m replies lost' (k+m<=10, drawn per run) plus random subsets, delays and duplicates through the frame hook; resolved MAC must be the owner's or the gateway's, success when an exchange got through, bounded failure, agreement of concurrent resolvers.",
+   "Real Arp/Ipv4/Pci with generated claims, subnets and gateways and groups of concurrent resolvers; loss patterns over ARP frames 'first k requests lost then m replies lost' (k+m<=10, drawn per run) plus random subsets, delays (up to 700 ms, beyond the resend interval) and duplicates through the frame hook, and resolvers that are abandoned part-way; resolved MAC must be the owner's or the gateway's, success when an exchange got through (by arrival times), bounded failure, agreement of concurrent resolvers, nobody hangs.",
    "Patterns are drawn per run rather than listed exhaustively per topology; every address claimed by at most one machine.",
    "deterministic simulation: fault enumeration over ARP request/reply loss patterns with seeded schedules"),
  "C13": ("E2 netsim", "exploration", "6 C13",
@@ -53,18 +53,18 @@ CHECKS = {
    "deterministic simulation: seeded message orderings and duplication of DHCP exchanges; direct-drive generator histories reported separately"),
  "C16": ("E2 netsim", "exploration", "6 C16",
    "Generated topologies of 1..4 ArpRouter machines joining subnets in lines, stars and rings with correct, missing, looping, host-specific and default routes; the expected (network, TTL) sequence of every datagram comes from the harness's own longest-prefix match and is compared with the frames seen on every network; delivery to the destination host only; loops end by TTL and the networks fall silent.",
-   "No loss/duplication faults (the statement is about forwarding); frame delays and task orders are seeded.",
+   "No loss/duplication faults (the statement is about forwarding); frame delays and task orders are seeded; a quarter of the runs hold the frames of some taps back for 2.1-6.1 s (longer than an ARP resolution waits), tolerate drops during that time and repeat every datagram 40 s later under the strict model; subnets are /22../26 with host addresses at the corners.",
    "deterministic simulation: seeded topologies, frame delays and task orders with reference forwarding model"),
  "C18": ("E2 netsim (compute_checksum build)", "exploration", "6 C18",
    "Second build of the harness with elvis-core/compute_checksum: every packet emitted by an Elvis machine is verified by an independent RFC 1071 implementation; a foreign stack (etherparse) sends datagrams and runs a TCP connection against the Elvis listener, forcing checksums of 0x0000 with balance bytes; the frame hook replaces frames by versions with one or two detectable bit flips, which must never be delivered.",
-   "A UDP checksum that a flip turns into 0x0000 means 'not computed' and is not counted as detectable.",
+   "Every frame the fault hook alters is also put through the real IPv4/UDP/TCP decoders, which must reject it (including a checksum whose set bits were cleared); the Elvis-to-Elvis connection carries data in both directions so that retransmissions change their acknowledgment numbers.",
    "deterministic simulation: fault injection (bit flips) and foreign-stack interop in a second build configuration"),
  "C19": ("E2 netsim + direct-drive", "exploration", "6 C19",
    "Simulation clause: generated runnable descriptions executed by generate_and_run_sim on virtual time under seeded frame delays and task orders; the run must end Exited and every described message must have been on the wire to the described receiver. Direct-drive clause: parse(render(tree)) == tree for tab / 4-space / CRLF renderings, twice in a row, and 8 kinds of structural mutation must be rejected.",
-   "forward and ping_pong applications are covered by the parse clause only; values contain neither a bare quote/backslash nor ']'. The parse clause has no schedule in it and is reported as direct-drive.",
+   "ping_pong is covered by the parse clause only (forward, subnet pools and per-machine ARP modes are in the run clause); values contain neither a bare quote/backslash nor ']'. The parse clause has no schedule in it and is reported as direct-drive.",
    "deterministic simulation of generated descriptions; direct-drive parser round trip reported separately"),
  "C20": ("E2 netsim", "exploration", "6 C20",
-   "Real DnsServer/DnsClient over datagram sockets: generated record sets, 1..6 clients with sequential lookups (repeats exercise the cache) running concurrently, frame delays up to 300 ms and task-order perturbation of the responder tasks; returned address = registered address, responses echo id and name of the query of that socket, cached lookups put no frame on the network.",
+   "Real DnsServer/DnsClient over datagram sockets: generated record sets (names differing only in case, names that look like address literals, placeholder-like addresses), 1..10 clients whose scripts are rounds of concurrent lookups (repeats exercise the cache; a stampede mode opens with 20+ simultaneous lookups), some lookups through Socket::connect_by_name, frame delays up to 300 ms and task-order perturbation of the responder tasks; returned address = registered address, responses echo id and name of the query of that socket, cached lookups put no frame on the network.",
    "Names fit the server's fixed 80-byte read; no loss (the client has no retry); num_connections is set to the exact number of network lookups.",
    "deterministic simulation: seeded frame delays and task orders with wire monitor"),
 }
@@ -119,7 +119,7 @@ def main():
         ],
         "checks": checks,
         "not_applicable": na,
-        "notes": "Technique family: deterministic simulation with fault injection. One integer (VERIF_SEED, default 20260923) decides every run; violations are minimised and written as replay files under /verif/replays; known findings and fixed defects are listed in /verif/known_findings.txt. Exit codes: 0 held, 1 violation, 2 harness/build error.",
+        "notes": "Technique family: deterministic simulation with fault injection. One integer (VERIF_SEED, default 20260923) decides every run; violations are minimised and written as replay files under /verif/replays; known findings and fixed defects are listed in /verif/known_findings.txt; /verif/regressions holds minimised explicit-case histories that every check replays before its search; /verif/seeded holds 64+ confirmed property-breaking changes with the check that catches each. Quick tier: at most 30-60 s per scenario; thorough tier: 1200 s per engine scenario, 600 s per direct-drive scenario. Exit codes: 0 held, 1 violation, 2 harness/build error.",
     }
     json.dump(m, open("/verif/MANIFEST.json", "w"), indent=1)
     print("checks:", len(checks), "not_applicable:", len(na))
